@@ -41,7 +41,7 @@ class Rec(MemoryStore):
 import pipe
 dds.accept_module("pipe")
 fails = []
-def bad(group, what): fails.append({"group": group, "what": what})
+def bad(group, what, cls=None): fails.append({"group": group, "what": what, "cls": cls})
 
 def run(stages=None, fn=None, **opts):
     st = api._store_var
@@ -224,6 +224,15 @@ for fn, code in ((pipe.overlap, DDSErrorCode.OVERLAPPING_PATH), (pipe.nested_eva
     k = kinds(ev)
     if not isinstance(exc, DDSException) or exc.error_code != code: bad("reject", "%s: expected %s, got %r" % (fn.__name__, code, exc))
     if calls or "store_blob" in k or "sync_paths" in k or s._cache or s._paths: bad("reject", "%s: rejected evaluation ran %s / touched the store %s" % (fn.__name__, calls, k))
+# call cycles of other shapes: through a higher-order reference, a key= reference, a keep, a default argument, methods
+for fn, shape in ((pipe.cyc_self, "a function calling itself"), (pipe.cyc_map_a, "through map(f, ...)"), (pipe.cyc_key_a, "through key=f"), (pipe.cyc_keep_a, "through dds.keep of the other function"),
+                  (pipe.cyc_three_a, "a -> b -> c -> a"), (pipe.cyc_method_top, "through methods of one class (self.m1 -> self.m2 -> self.m1)")):
+    s = fresh()
+    res, exc, ev, calls = run(fn=fn)
+    k = kinds(ev)
+    cls_ = "cycle_through_methods_not_rejected" if fn is pipe.cyc_method_top else None
+    if not isinstance(exc, DDSException) or exc.error_code != DDSErrorCode.CIRCULAR_CALL: bad("reject", "call cycle %s (%s): expected CIRCULAR_CALL, got %r / %r" % (shape, fn.__name__, exc, res), cls_)
+    elif calls or "store_blob" in k or "sync_paths" in k or s._cache or s._paths: bad("reject", "call cycle %s: rejected evaluation ran %s / touched the store %s" % (shape, calls, k), cls_)
 # the offending call sits in an accepted module that is imported inside the function body and not loaded yet
 import sys as _sys
 for m_ in ("lazy_ov", "lazy_ev", "lazy_cy"):
@@ -350,6 +359,55 @@ def lazy_cycle():
     CALLS.append("lazy_cycle")
     import lazy_cy
     return lazy_cy.back()
+
+GUARD = 0
+
+def cyc_self(n=2):
+    CALLS.append("cyc_self")
+    return 1 if n <= GUARD else cyc_self(n - 1)
+
+def cyc_map_a():
+    CALLS.append("cyc_map_a")
+    return list(map(cyc_map_b, [1]))
+
+def cyc_map_b(x):
+    return cyc_map_a() if GUARD < 0 else x
+
+def cyc_key_a():
+    CALLS.append("cyc_key_a")
+    return sorted([2, 1], key=cyc_key_b)
+
+def cyc_key_b(x):
+    return cyc_key_a() if GUARD < 0 else x
+
+def cyc_keep_a():
+    CALLS.append("cyc_keep_a")
+    return dds.keep("/cyc/b", cyc_keep_b)
+
+def cyc_keep_b():
+    CALLS.append("cyc_keep_b")
+    return dds.keep("/cyc/a", cyc_keep_a) if GUARD < 0 else 5
+
+def cyc_three_a():
+    CALLS.append("cyc_three_a")
+    return cyc_three_b()
+
+def cyc_three_b():
+    return cyc_three_c()
+
+def cyc_three_c():
+    return cyc_three_a() if GUARD < 0 else 3
+
+class Cyc:
+    def m1(self):
+        return self.m2()
+
+    def m2(self):
+        return self.m1() if GUARD < 0 else 2
+
+def cyc_method_top():
+    CALLS.append("cyc_method_top")
+    return Cyc().m1()
 
 def rec_a():
     CALLS.append("rec_a")
